@@ -276,17 +276,28 @@ pub fn c10_order_cases(rng: &mut Rng, tier: &str, out: &mut Out) {
     use sha2::{Digest, Sha256};
     let n = if tier == "thorough" { 6000 } else { 1200 };
     let unit = if cfg!(feature = "scaled") { 64usize } else { 131_072 };
+    // production constants: the last chunk of an archive holds the end of the last files AND the footer, a
+    // situation the scaled constants cannot produce (a footer alone is larger than a scaled chunk). A targeted
+    // family instead of random sizes: files of 100, 1000, CHUNK-1200+d, 1000 bytes for d = 0..220 (the reader
+    // stands, after the third file, at every distance around one chunk from the start of the second), and only
+    // the pairs that read the long file first.
+    let prod = !cfg!(feature = "scaled");
+    let n = if prod { if tier == "thorough" { 440 } else { 220 } } else { n };
     for k in 0..n {
-        let layers = [L_ENC, 0, L_ENC, L_COMP | L_ENC][k % 4];
-        let nf = rng.range(3, 5) as usize;
+        let layers = if prod { L_ENC } else { [L_ENC, 0, L_ENC, L_COMP | L_ENC][k % 4] };
+        let nf = if prod { 4 } else { rng.range(3, 5) as usize };
         let names: Vec<Vec<u8>> = (0..nf).map(|i| format!("{}", (b'a' + i as u8) as char).into_bytes()).collect();
         let mut pieces = Vec::new();
         for i in 0..nf {
-            let len = match rng.below(4) {
-                0 => rng.below(40) as usize,
-                1 => (unit + rng.below(100) as usize).saturating_sub(80),
-                2 => rng.below(2 * unit as u64 + 40) as usize,
-                _ => *rng.pick(&[0usize, 1, (2 * unit).saturating_sub(76), unit.saturating_sub(35), unit, unit + 1]),
+            let len = if prod {
+                [100, 1000, unit - 1200 + k / 2, 1000][i] + (k % 2) * [0, 0, 0, 7][i]
+            } else {
+                match rng.below(4) {
+                    0 => rng.below(40) as usize,
+                    1 => (unit + rng.below(100) as usize).saturating_sub(80),
+                    2 => rng.below(2 * unit as u64 + 40) as usize,
+                    _ => *rng.pick(&[0usize, 1, (2 * unit).saturating_sub(76), unit.saturating_sub(35), unit, unit + 1]),
+                }
             };
             pieces.push((i, rng.bytes(len)));
         }
@@ -295,6 +306,9 @@ pub fn c10_order_cases(rng: &mut Rng, tier: &str, out: &mut Out) {
         let privs = reader_keys(&plan, &built);
         let mut msg: Option<String> = None;
         'pairs: for x in 0..nf {
+            if prod && x != 2 {
+                continue;
+            }
             for y in 0..nf {
                 for second in [3u64, 1] {
                     let ops = vec![vec![3, x as u64, 100_000], if second == 3 { vec![3, y as u64, 100_000] } else { vec![1, y as u64] }];
